@@ -22,6 +22,15 @@ CHECKS = {
  "C09": ("exploration", "runtime monitoring: differential conversation between a real endpoint and an independent reference codec (harness as v2/v3 peer), complete (direction x kind x flags x version) cell coverage",
          "Held on N scripted conversations in which the harness speaks reference-encoded bytes as a version-2 or version-3 peer: every frame the real endpoint emitted decoded strictly and matched what the triggering API action implies, every reference-encoded frame was understood as intended, ids were sent to v3 peers only, and length-prefixed framing held over a fragmenting byte pipe; all 108 (direction, kind, flag set, peer version) cells must be observed or the check fails as broken.",
          "trusts: harness/src/refcodec.rs as the frozen statement of the published layout (written from the documentation, not from remoc's encoder)", "DESIGN.md §3 C09", "refcodec+peer"),
+ "C06": ("fault_enumeration", "runtime monitoring: exhaustive fault injection (every frame index x direction x fault kind x drop visibility of a recorded workload) on a harness-owned transport, pending-operation registry judged at virtual-time quiescence",
+         "Every (direction, frame index, fault kind, visibility) tuple of the recorded workload was executed: the directly observing dispatcher terminated at the next quiescence, all dispatchers and all tracked API futures completed within 3x(T_A+T_B) virtual seconds, error classes were transport classes, received data stayed a prefix; idle healthy connections survived 1000 timeouts. Exhaustive for the fault space of this workload only.",
+         "fault positions of other workloads are not reached; 'bounded time' = virtual time on tokio's paused clock", "DESIGN.md §3 C06", "simnet fault enumerator"),
+ "C07": ("exploration", "runtime monitoring: shutdown oracle at quiescence (dispatcher results, H1 live-task counter, port allocator probe, wire monitor W6) over seeded drop orders; heap/task plateau over open-close cycles",
+         "Held on N seeded executions: after dropping every sender/receiver/connect/request/client/listener of both endpoints in random order (interleaved with network delays and deferral of the drop-notification tasks) both dispatchers returned Ok(()) with the transport open, no internal task survived, all max_ports numbers were allocatable, no port number was reused while open; 500 (quick) / 5000 (thorough) open-transfer-close cycles left heap and task count flat.",
+         "internal tasks counted by hook H1; heap by the harness's counting allocator; sampling of drop orders", "DESIGN.md §3 C07", "simnet+wiremon+H1 counter"),
+ "C10": ("exploration", "runtime monitoring: outcome-table oracle and tag echo over accepted pairs for seeded concurrent connect/accept/reject/drop/cancel histories; wire monitor W5/W6; sent-ordering probe",
+         "Held on N seeded executions: each tagged port-open request resolved by quiescence with the class the listener's recorded action implies, accepted pairs echoed the right tags on both sides, no request was seen twice, exhaustion errors were truthful, unanswered OpenPort never exceeded the advertised queue, and a request reported as sent was visible to the listener before later data arrived.",
+         "the configured default Cfg::ports_exhausted is read by no code path of this tree; requests are judged by the wait flag they ran with", "DESIGN.md §3 C10", "simnet+wiremon+history"),
 }
 
 NOT_YET = "check not yet implemented in this commit (DESIGN.md §6a gives the order of implementation)"
